@@ -162,11 +162,15 @@ macro_rules! ans_io_harnesses {
                 let (bulk, state) = any_coder();
                 let mut c = Coder::from_raw_parts(bulk, state);
                 let (spec, n) = spec_export(&bulk, state);
+                let grp = group(2);   // 0: what the view shows; 1: the coder after the view is dropped
                 {
                     let g = match c.get_compressed() { Ok(g) => g, Err(_) => { assert!(false, "C08: get_compressed failed on a non-full backend"); return; } };
-                    assert!(g.n == n, "C08: get_compressed view has a different length than finishing the encoder would return");
-                    let mut i = 0; while i < n { assert!(g.buf[i] == spec[i], "C08: get_compressed view differs from what finishing the encoder would return"); i += 1; }
+                    if grp == 0 {
+                        assert!(g.n == n, "C08: get_compressed view has a different length than finishing the encoder would return");
+                        let mut i = 0; while i < n { assert!(g.buf[i] == spec[i], "C08: get_compressed view differs from what finishing the encoder would return"); i += 1; }
+                    }
                 }
+                if grp == 0 { return; }
                 let (b1, s1) = c.into_raw_parts();
                 assert!(s1 == state && b1.n == bulk.n, "C08/C01: dropping the get_compressed view did not restore the coder");
                 let mut i = 0; while i < bulk.n { assert!(b1.buf[i] == bulk.buf[i], "C08/C01: dropping the get_compressed view changed the bulk"); i += 1; }
